@@ -96,7 +96,10 @@ func HarnessConnEnd() {
 		verif.Assert(h.ctxs[i] != nil && h.ctxs[i].Err() == nil, "handler-context-live-while-connected")
 	}
 	// whatever else the peer sent before (odd but harmless frames), the end of the connection is noticed
-	switch verif.Choice("odd_frame_before_end", 7) {
+	switch verif.Choice("odd_frame_before_end", 8) {
+	case 7:
+		// a short call that re-uses the id of the first (still running or streaming) request
+		send(pc, map[string]interface{}{"jsonrpc": "2.0", "id": 1, "method": "H.Quick", "params": []interface{}{0}})
 	case 1:
 		pc.Send([]byte{})
 	case 2:
